@@ -109,9 +109,10 @@ func (c *Initiator) Serve() error {
 		case <-c.handler.Context().Done():
 			stopHandler.Do(func() {})
 		case <-c.ctx.Done():
-			stopHandler.Do(func() {
-				c.handler.StopWithError(nil)
-			})
+			// Stop cancels the handler context and never blocks. Handing a nil error to
+			// the handler loop did: the loop may be busy sending a reply that nobody
+			// will ever write, and it ended without any notification.
+			c.handler.Stop()
 		}
 
 		return nil
